@@ -22,6 +22,7 @@ MOF = "litedram/phy/model.py"
 L4F = "litedram/phy/lpddr4/commands.py"
 L5F = "litedram/phy/lpddr5/commands.py"
 L4S = "litedram/phy/lpddr4/sim.py"
+AXF = "litedram/frontend/axi.py"
 
 
 def M(id, prop, ob, file, old, new, expect="refuted", **kw):
@@ -241,4 +242,15 @@ MUTANTS = [
     M("c20.4-ca-slip", "C20", "C20.4", UTF, "ca_bs = ConstBitSlip(dw=ca_ser_width, slp=phase*ca_phase_slip, cycles=1)", "ca_bs = ConstBitSlip(dw=ca_ser_width, slp=phase*ca_phase_slip + 1, cycles=1)"),
     M("c20.4-window", "C20", "C20.4", UTF, "valids_hist[nphases+phase - n_previous:nphases+phase]", "valids_hist[nphases+phase - n_previous + 1:nphases+phase]"),
     B("c20-twin-rename", "C20", L5F, "        mpc_op = Signal(8)\n        self.comb += If(self.dfi.address == 0,\n            mpc_op.eq(MPC.ZQC_LATCH)\n        ).Else(\n            mpc_op.eq(self.dfi.address)\n        )\n        op = mpc_op if is_mpc else self.dfi.address", "        zq_op = Signal(8)\n        self.comb += If(self.dfi.address == 0,\n            zq_op.eq(MPC.ZQC_LATCH)\n        ).Else(\n            zq_op.eq(self.dfi.address)\n        )\n        op = zq_op if is_mpc else self.dfi.address"),
+    # ---- C09 ----
+    M("c09.1-gate-one-side", "C09", "C09.1", AXF, "w_buffer.source.ready.eq(port.wdata.ready & w_buffer_send),", "w_buffer.source.ready.eq(port.wdata.ready),"),
+    M("c09.1-can-write", "C09", "C09.1", AXF, "self.comb += can_write.eq(w_buffer.level > w_buffer_level)", "self.comb += can_write.eq(w_buffer.level >= w_buffer_level)"),
+    M("c09.2-b-on-push", "C09", "C09.2", AXF, "            If(w_buffer.source.valid &\n               w_buffer.source.last &\n               w_buffer.source.ready,", "            If(w_buffer.sink.valid &\n               w_buffer.sink.last &\n               w_buffer.sink.ready,"),
+    M("c09.3-depth+1", "C09", "C09.3", AXF, "self.comb += can_read.eq(r_buffer_level != buffer_depth)", "self.comb += can_read.eq(r_buffer_level != (buffer_depth + 1))"),
+    M("c09.3-id-pop", "C09", "C09.3", AXF, "id_buffer.source.ready.eq(axi.r.valid & axi.r.ready)", "id_buffer.source.ready.eq(axi.r.ready)"),
+    M("c09.4-rmw-noreq", "C09", "C09.4", AXF, '            rmw_fsm.act("READ",\n                self.rmw_request.eq(1),', '            rmw_fsm.act("READ",'),
+    M("c09.4-rmw-noblock", "C09", "C09.4", AXF, "            self.comb += If(self.rmw_request,\n                r_buffer_queue.eq(0),\n                can_read.eq(0)\n            )", "            self.comb += If(self.rmw_request,\n                r_buffer_queue.eq(0),\n            )"),
+    M("c09.5-merge-pol", "C09", "C09.5", AXF, "(port.rdata.data & ~rmw_mask) | (axi.w.data & rmw_mask)", "(port.rdata.data & rmw_mask) | (axi.w.data & ~rmw_mask)"),
+    B("c09.5-twin-order", "C09", AXF, "(port.rdata.data & ~rmw_mask) | (axi.w.data & rmw_mask)", "(rmw_mask & axi.w.data) | (~rmw_mask & port.rdata.data)"),
+    M("c09.6-addr", "C09", "C09.6", AXF, "                port.cmd.we.eq(0),\n                port.cmd.addr.eq((ar.addr - base_address) >> ashift),", "                port.cmd.we.eq(0),\n                port.cmd.addr.eq(ar.addr >> ashift),"),
 ]
